@@ -42,6 +42,11 @@ const (
 	tMD     // metadata.MD
 	tStrList
 	tFunc
+	tRpc   // *goatorepo.Rpc: the fields that end an RPC (Model/Status.v fenv)
+	tWsPtr // *goatorepo.ResponseStatus (nil-safe getters)
+	tWs    // spb.Status value
+	tInt32
+	tPresence // a pointer field or getter of which only nil-ness is used: bool "non-nil"
 )
 
 type untranslatable struct{ msg string }
@@ -53,6 +58,7 @@ type tr struct {
 	fres    map[string][]ty         // their result types
 	params  map[string]string       // call text -> free parameter (e.g. time.Until(deadline) -> g_remaining)
 	consts  map[string]ast.Expr     // package-level constants of the file with literal values
+	richErr bool                    // errors are structured values (goerr), not the flag non-nil
 	results []ty                    // result types of the function being translated (for nil in a return)
 }
 
@@ -116,6 +122,9 @@ func (t *tr) typeOf(e ast.Expr) ty {
 		if s, ok := x.X.(*ast.SelectorExpr); ok && s.Sel.Name == "KeyValue" {
 			return tKV
 		}
+		if s, ok := x.X.(*ast.SelectorExpr); ok && exprText(s) == "goatorepo.Rpc" {
+			return tRpc
+		}
 	case *ast.ArrayType:
 		if x.Len == nil {
 			switch t.typeOf(x.Elt) {
@@ -170,6 +179,10 @@ var constTable = map[string]string{
 	"math.MaxInt64":    "go_max_int64",
 }
 
+// grpc status codes used by the status decisions
+var codeTable = map[string]string{"codes.OK": "0", "codes.Canceled": "1", "codes.Unknown": "2", "codes.DeadlineExceeded": "4",
+	"codes.Internal": "13", "codes.Unavailable": "14"}
+
 func arith(t1, t2 ty) ty {
 	if t1 == tUntyped {
 		return t2
@@ -205,6 +218,9 @@ func (t *tr) expr(e ast.Expr) (string, ty, string) {
 		case "true", "false":
 			return x.Name, tBool, ""
 		case "nil":
+			if t.richErr {
+				return "GErrNil", tErr, ""
+			}
 			return "false", tErr, ""
 		}
 		if ty, ok := t.vars[x.Name]; ok {
@@ -221,6 +237,15 @@ func (t *tr) expr(e ast.Expr) (string, ty, string) {
 				return c, tUntyped, ""
 			}
 			return c, tInt64, ""
+		}
+		if c, ok := codeTable[full]; ok {
+			return c, tUntyped, ""
+		}
+		if full == "io.EOF" && t.richErr {
+			return "GErrEof", tErr, ""
+		}
+		if id, ok := x.X.(*ast.Ident); ok && t.vars[id.Name] == tRpc && x.Sel.Name == "Trailer" {
+			return "(e_trailer " + gname(id.Name) + ")", tPresence, ""
 		}
 		if id, ok := x.X.(*ast.Ident); ok && t.vars[id.Name] == tKV {
 			switch x.Sel.Name {
@@ -248,7 +273,7 @@ func (t *tr) expr(e ast.Expr) (string, ty, string) {
 		}
 		t.fail(e, "unary operator %s", x.Op)
 	case *ast.CompositeLit:
-		if t.typeOf(&ast.StarExpr{X: x.Type}) == tKV {
+		if exprText(x.Type) == "goatorepo.KeyValue" {
 			var k, v, gk, gv string
 			for _, el := range x.Elts {
 				kv, ok := el.(*ast.KeyValueExpr)
@@ -270,6 +295,23 @@ func (t *tr) expr(e ast.Expr) (string, ty, string) {
 			}
 			return "(" + k + ", " + v + ")", tKV, and(gk, gv)
 		}
+		if exprText(x.Type) == "spb.Status" {
+			f := map[string]string{}
+			var gs []string
+			for _, el := range x.Elts {
+				kv, ok := el.(*ast.KeyValueExpr)
+				if !ok {
+					t.fail(el, "positional composite literal")
+				}
+				v, _, g := t.expr(kv.Value)
+				f[exprText(kv.Key)] = v
+				gs = append(gs, g)
+			}
+			if len(f) != 3 || f["Code"] == "" || f["Message"] == "" || f["Details"] == "" {
+				t.fail(e, "spb.Status literal must set exactly Code, Message and Details")
+			}
+			return "(mkWs " + f["Code"] + " " + f["Message"] + " " + f["Details"] + ")", tWs, and(gs...)
+		}
 		t.fail(e, "composite literal of type %s", exprText(x.Type))
 	case *ast.BinaryExpr:
 		a, ta, ga := t.expr(x.X)
@@ -288,6 +330,19 @@ func (t *tr) expr(e ast.Expr) (string, ty, string) {
 			switch {
 			case ta == tString || tb == tString:
 				c = "(go_str_eq " + a + " " + b + ")"
+			case ta == tPresence || tb == tPresence:
+				other := a
+				if exprText(x.X) == "nil" {
+					other = b
+				} else if exprText(x.Y) != "nil" {
+					t.fail(e, "comparison of two pointers")
+				}
+				if x.Op == token.EQL {
+					return "(negb " + other + ")", tBool, g
+				}
+				return other, tBool, g
+			case (ta == tErr || tb == tErr) && t.richErr:
+				t.fail(e, "comparison of structured error values")
 			case ta == tErr || tb == tErr:
 				// err == nil / err != nil: an error is the flag "non-nil"
 				other := a
@@ -366,7 +421,52 @@ func (t *tr) expr(e ast.Expr) (string, ty, string) {
 			}
 			return t.expr(x.Args[i])
 		}
+		// method calls on the envelope and on a status pointer (nil-safe protobuf getters)
+		if sel, ok := x.Fun.(*ast.SelectorExpr); ok && len(x.Args) == 0 {
+			if id, ok := sel.X.(*ast.Ident); ok {
+				switch t.vars[id.Name] {
+				case tRpc:
+					switch sel.Sel.Name {
+					case "GetReset_":
+						return "(e_reset " + gname(id.Name) + ")", tPresence, ""
+					case "GetTrailer":
+						return "(e_trailer " + gname(id.Name) + ")", tPresence, ""
+					case "GetStatus":
+						return "(e_status " + gname(id.Name) + ")", tWsPtr, ""
+					}
+				case tWsPtr:
+					switch sel.Sel.Name {
+					case "GetCode":
+						return "(go_get_code " + gname(id.Name) + ")", tInt32, ""
+					case "GetMessage":
+						return "(go_get_message " + gname(id.Name) + ")", tString, ""
+					case "GetDetails":
+						return "(go_get_details " + gname(id.Name) + ")", tUnknown, ""
+					}
+				}
+			}
+			// status.FromProto(&sp).Err()
+			if sel.Sel.Name == "Err" {
+				if inner, ok := sel.X.(*ast.CallExpr); ok && exprText(inner.Fun) == "status.FromProto" && len(inner.Args) == 1 {
+					if u, ok := inner.Args[0].(*ast.UnaryExpr); ok && u.Op == token.AND {
+						if id, ok := u.X.(*ast.Ident); ok && t.vars[id.Name] == tWs && t.richErr {
+							return "(go_from_proto_err " + gname(id.Name) + ")", tErr, ""
+						}
+					}
+				}
+			}
+		}
 		switch fn {
+		case "int32":
+			a, _, g := arg(0)
+			return a, tInt32, g
+		case "status.Error":
+			if !t.richErr {
+				t.fail(e, "status.Error outside a structured-error target")
+			}
+			c, _, gc := arg(0)
+			m, _, gm := arg(1)
+			return "(go_status_error " + c + " " + m + ")", tErr, and(gc, gm)
 		case "len":
 			a, ta, g := arg(0)
 			if ta != tString {
@@ -485,6 +585,9 @@ func (t *tr) stmts(list []ast.Stmt, c ctx) string {
 					v = "(@nil (bytes * list bytes))"
 				case tErr:
 					v = "false"
+					if t.richErr {
+						v = "GErrNil"
+					}
 				default:
 					t.fail(r, "nil as a result of this type")
 				}
@@ -879,14 +982,15 @@ func (t *tr) rangeStmt(x *ast.RangeStmt, rest []ast.Stmt, c ctx) string {
 
 // ---- targets
 type target struct {
-	Name   string // Coq module <Name>Gen, definition gen_<func>
-	File   string
-	Func   string
-	Frag   string            // "" = whole function; else: the body of the if statement whose init is this text
-	Params map[string]string // call text -> parameter name (free variables of a fragment)
-	Extra  []string          // parameters of the generated definition for a fragment
-	Result string            // fragment: the variable whose final value is the result
-	Pre    string            // fragment: let-bindings in front
+	Name    string // Coq module <Name>Gen, definition gen_<func>
+	File    string
+	Func    string
+	Frag    string            // "" = whole function; else: the body of the if statement whose init is this text
+	Params  map[string]string // call text -> parameter name (free variables of a fragment)
+	Extra   []string          // parameters of the generated definition for a fragment
+	Result  string            // fragment: the variable whose final value is the result
+	Pre     string            // fragment: let-bindings in front
+	RichErr bool              // errors are structured values
 }
 
 var targets = []target{
@@ -896,6 +1000,7 @@ var targets = []target{
 		Params: map[string]string{"time.Until(deadline)": "g_remaining"}, Extra: []string{"(g_remaining : Z)"}, Result: "h",
 		Pre: "let g_h := (@nil (bytes * bytes)) in\n"},
 	{Name: "ToMetadata", File: "internal/util.go", Func: "ToMetadata"},
+	{Name: "ErrorIfDone", File: "internal/client/stream.go", Func: "errorIfDone", RichErr: true},
 }
 
 func translate(repo string, tg target) (out string, err error) {
@@ -922,7 +1027,7 @@ func translate(repo string, tg target) (out string, err error) {
 	if fd == nil {
 		return "", fmt.Errorf("%s: function %s not found", tg.File, tg.Func)
 	}
-	t := &tr{fset: fset, vars: map[string]ty{}, funcs: map[string]*ast.FuncLit{}, fres: map[string][]ty{}, params: tg.Params, consts: map[string]ast.Expr{}}
+	t := &tr{fset: fset, vars: map[string]ty{}, funcs: map[string]*ast.FuncLit{}, fres: map[string][]ty{}, params: tg.Params, consts: map[string]ast.Expr{}, richErr: tg.RichErr}
 	for _, d := range f.Decls {
 		if gd, ok := d.(*ast.GenDecl); ok && gd.Tok == token.CONST {
 			for _, sp := range gd.Specs {
@@ -939,14 +1044,18 @@ func translate(repo string, tg target) (out string, err error) {
 	}
 	var sb strings.Builder
 	fmt.Fprintf(&sb, "(* GENERATED by tools/go2coq from %s (func %s) - do not edit, not committed *)\n", tg.File, tg.Func)
-	sb.WriteString("From Goat Require Import Base.Bytes Model.Meta Gen.GoPrims.\nOpen Scope Z_scope.\n\n")
+	sb.WriteString("From Goat Require Import Base.Bytes Model.Meta Model.Status Gen.GoPrims.\nOpen Scope Z_scope.\n\n")
 	if tg.Frag == "" {
 		var ps []string
 		for _, fl := range fd.Type.Params.List {
 			tt := t.typeOf(fl.Type)
 			for _, n := range fl.Names {
 				t.vars[n.Name] = tt
-				ps = append(ps, gname(n.Name))
+				if tt == tRpc {
+					ps = append(ps, "("+gname(n.Name)+" : go_env)")
+				} else {
+					ps = append(ps, gname(n.Name))
+				}
 			}
 		}
 		if fd.Type.Results != nil {
